@@ -202,7 +202,8 @@ PROPERTIES = {
     "C05": {"rules": ["T-API", "T-INS", "M-UF"], "level": "other"},
     "C08": {"rules": ["S-SIB", "S-PRUNE", "S-LEAF", "S-SET", "T-PRUNE-USE", "M-FREEZE", "M-UNSAFE", "M-MAPFREE", "M-SHARE", "M-CBORDER"], "level": "other"},
     "C14": {"rules": ["M-FREEZE", "M-UNSAFE", "M-MAPFREE", "M-SHARE", "M-CBORDER", "M-LEN", "M-SIZE", "M-BAL", "S-NAV", "S-SET"], "level": "other"},
-    "C18": {"rules": ["M-SYM", "M-KAHN", "T-MOR"], "level": "other"},
+    # of T-MOR only the clauses about the call of the topological sort concern C18 (how its output is used is C17)
+    "C18": {"only_keys": {"T-MOR": ["T-MOR:recompute:toposort-"]}, "rules": ["M-SYM", "M-KAHN", "T-MOR"], "level": "other"},
     "C06": {"rules": ["T-ALLOC", "M-FUNCDOM", "T-DIRTY", "T-MOVE", "T-CANON", "S-PRUNE"], "level": "other"},
     "C09": {"rules": ["T-TYPECHECK", "T-ENV", "T-X", "T-DELTA"], "level": "translation_validation"},
     "C11": {"rules": ["M-PANIC", "M-LINES", "M-LOCS"], "level": "other"},
